@@ -136,6 +136,12 @@ def constructors_and_writers(an, rep):
     builders = {"desert_core::state::State": [], "desert_core::adt::AdtMetadata": []}
     default_refs = []
     writers = {}
+    from .n_totality import _owner_fn
+    owner, users = _owner_fn(core, callgraph.CallGraph(core))
+
+    def acct(b):
+        """a private non-anchor helper is accounted to the function(s) it is called from"""
+        return users(b) or {owner(b)}
     for b in sorted(core.bodies.values(), key=lambda b: b.key):
         ex = None
         for bb in sorted(mir.reachable(b)):
@@ -152,11 +158,11 @@ def constructors_and_writers(an, rep):
                 for pl, is_mut_use in ((st["place"], True), (rv.get("place"), rv["rv"] == "ref" and rv.get("mut"))):
                     if not pl or not is_mut_use:
                         continue
-                    owner, fld = _field_owner(b, pl)
-                    if owner == "desert_core::state::State" and fld in state_fields:
-                        writers.setdefault(fld, set()).add(b.key)
-                    if owner == "desert_core::adt::AdtMetadata" and fld in meta_fields:
-                        writers.setdefault("meta." + fld, set()).add(b.key)
+                    fowner, fld = _field_owner(b, pl)
+                    if fowner == "desert_core::state::State" and fld in state_fields:
+                        writers.setdefault(fld, set()).update(acct(b))
+                    if fowner == "desert_core::adt::AdtMetadata" and fld in meta_fields:
+                        writers.setdefault("meta." + fld, set()).update(acct(b))
             for o in _operands(blk):
                 c = o.get("const")
                 if c and c.get("fn"):
